@@ -380,7 +380,7 @@ def histories(draw, versions=T.VERSIONS, max_ops=30, invalid=True, controller=Tr
             if wake is not None and draw(st.booleans()):
                 ops.append({"op": "line", "text": frame((nid, 255, T.INTERNAL, 0, wake, "5"))})
     weights = dict(valid=62, near=10 if invalid else 0, raw=6 if invalid else 0, set=12 if controller else 0,
-                   fw=4 if ota else 0, metric=2, cb_raise=2 if cb_raise else 0, clock=2, wild=0, save=0, desire=3 if controller else 0, race=0, confirm=2 if controller else 0)
+                   fw=4 if ota else 0, metric=2, cb_raise=2 if cb_raise else 0, clock=2, wild=0, save=0, desire=3 if controller else 0, race=0, confirm=2 if controller else 0, otaflow=2 if ota else 0)
     weights.update(op_weights or {})
     table = [k for k, w in weights.items() for _ in range(w)]
     for _ in range(n_ops):
@@ -416,6 +416,23 @@ def histories(draw, versions=T.VERSIONS, max_ops=30, invalid=True, controller=Tr
                 wake = T.wake_sub(version)
                 if wake is not None and draw(st.booleans()):
                     ops.append({"op": "line", "text": frame((nid, 255, T.INTERNAL, 0, wake, "7"))})
+        elif roll == "otaflow":
+            # template: schedule an update, let the node ask for the config and then for blocks at the edges
+            known = pic.known_nodes()
+            if known:
+                nid = draw(st.sampled_from(known))
+                length = draw(st.sampled_from([1, 16, 100, 128, 129, 200]))
+                image = {"len": length, "seed": draw(st.integers(0, 99)), "fill": "random"}
+                ftype, fver = draw(st.integers(0, 2)), draw(st.integers(0, 2))
+                ops.append({"op": "fw", "nids": [nid], "type": ftype, "ver": fver, "image": image})
+                if (ftype, fver) not in pic.fw:
+                    pic.fw.append((ftype, fver))
+                pic.images[(ftype, fver)] = image
+                ops.append({"op": "line", "text": frame((nid, 255, T.STREAM, 0, 0, O.words_hex(9, 9, 1, 2, 3)))})
+                blocks = O.allowed_paddings(length)[-1] // 16
+                for _ in range(draw(st.integers(1, 3))):
+                    blk = draw(st.sampled_from([0, blocks - 1, blocks, blocks + 1, 65535, blocks // 2]))
+                    ops.append({"op": "line", "text": frame((nid, 255, T.STREAM, 0, 2, O.words_hex(ftype, fver, blk)))})
         elif roll == "confirm":
             # template: the node reports X, sleeps, the controller asks for Y, the node reports X AGAIN
             # (an unchanged periodic report is still a report of that value type), then wakes up
